@@ -1,6 +1,7 @@
 """Batch driver: seeded run loop over worker processes, known-finding matching,
 minimisation, replay files, evidence."""
 import argparse
+import array
 import faulthandler
 import hashlib
 import importlib
@@ -16,7 +17,7 @@ from collections import Counter
 from concurrent.futures import ProcessPoolExecutor
 from concurrent.futures.process import BrokenProcessPool
 
-from .core import HarnessError, RunResult, Violation, shrink, jdump
+from .core import HarnessError, LibraryMisbehaved, RunResult, Violation, shrink, jdump
 
 VERIF = os.path.dirname(os.path.dirname(os.path.abspath(__file__)))
 REPO = os.environ.get("SIMFILE_REPO", "/repo")
@@ -88,16 +89,21 @@ def kf_match(v):
 
 # ------------------------------------------------------------------ execution
 def _lib_frame(tb):
-    """Is the innermost frame of the traceback inside the library under test
-    (or its tokenizer dependency)?"""
+    """Did the exception come out of the library under test?  True when some frame
+    of the traceback is inside /repo (or the tokenizer dependency) and the innermost
+    frame is not harness code (an exception raised by the simulator's own stubs while
+    the library calls them is a harness matter)."""
+    seen_lib = False
     last = None
     while tb is not None:
-        last = tb
+        fn = tb.tb_frame.f_code.co_filename
+        if fn.startswith(REPO + "/") or "/msdparser/" in fn:
+            seen_lib = True
+        last = fn
         tb = tb.tb_next
-    if last is None:
+    if last is None or last.startswith(VERIF + "/"):
         return False
-    fn = last.tb_frame.f_code.co_filename
-    return fn.startswith(REPO + "/") or "/msdparser/" in fn
+    return seen_lib
 
 
 def execute(sc):
@@ -109,6 +115,11 @@ def execute(sc):
         return wl.execute(sc)
     except HarnessError:
         raise
+    except LibraryMisbehaved as e:
+        res = RunResult()
+        res.evaluations = 1
+        res.violate(prop, e.clause, **e.detail)
+        return res
     except Exception as e:
         if _lib_frame(e.__traceback__):
             res = RunResult()
@@ -130,6 +141,36 @@ def unmatched(res):
 
 
 def run_block(args):
+    """Run one block in a process of its own (a fork of this worker, which never
+    executes scenarios itself): whatever state the library keeps inside the process
+    is then a function of the block's runs alone, so a violation that needs history
+    from earlier runs replays from its block (see block_replay)."""
+    import pickle
+    r, w = os.pipe()
+    pid = os.fork()
+    if pid == 0:
+        code = 0
+        try:
+            os.close(r)
+            out = _run_block_inner(args)
+            with os.fdopen(w, "wb") as f:
+                pickle.dump(out, f, protocol=pickle.HIGHEST_PROTOCOL)
+        except BaseException:
+            traceback.print_exc()
+            code = 3
+        finally:
+            os._exit(code)
+    os.close(w)
+    with os.fdopen(r, "rb") as f:
+        data = f.read()
+    _, status = os.waitpid(pid, 0)
+    if status != 0 or not data:
+        return {"harness_error": "block %r: child process ended with status %r (wall cap %ds, or crash)"
+                                 % (args[2:4], status, BLOCK_WALL_CAP_S)}
+    return pickle.loads(data)
+
+
+def _run_block_inner(args):
     prop, seed, start, stop, tier, fixed_idx = args
     faulthandler.dump_traceback_later(BLOCK_WALL_CAP_S, exit=True)
     sys.unraisablehook = lambda u: None
@@ -166,7 +207,8 @@ def run_block(args):
                 if e is not None:
                     agg["known"][e["id"]] += 1
                 elif len(agg["violations"]) < 8:
-                    agg["violations"].append((sc.get("run", run), sc, v.to_json()))
+                    agg["violations"].append((sc.get("run", run), sc, v.to_json(),
+                                              {"first": start, "stop": stop, "fixed": fixed_idx}))
                 else:
                     agg["stats"]["violations-not-kept"] += 1
             if len(agg["samples"]) < 2 and res.distinct:
@@ -177,6 +219,7 @@ def run_block(args):
         agg["harness_error"] = traceback.format_exc()
     faulthandler.cancel_dump_traceback_later()
     agg["digest"] = agg["digest"].hexdigest()
+    agg["distinct"] = array.array("Q", sorted(agg["distinct"])).tobytes()   # compact for the pipe
     return agg
 
 
@@ -226,11 +269,13 @@ def run_batch(prop, seed, tier, runs, workers, first=0):
              "samples": [], "digest": hashlib.sha256(), "known": Counter(), "steps": 0, "runs": 0,
              "nontrivial_runs": 0}
     for a in results:
-        if a["harness_error"]:
+        if a.get("harness_error"):
             raise HarnessError(a["harness_error"])
         total["evaluations"] += a["evaluations"]
         total["stats"].update(a["stats"])
-        total["distinct"] |= a["distinct"]
+        d = array.array("Q")
+        d.frombytes(a["distinct"])
+        total["distinct"].update(d)
         total["violations"].extend(a["violations"])
         if len(total["samples"]) < 3:
             total["samples"].extend(a["samples"][:1])
@@ -277,11 +322,81 @@ def minimise_and_report(prop, run, sc, vj, budget_s):
     return path, confirmed, detail
 
 
+def block_scenarios(b):
+    """The scenarios of a block replay, in execution order."""
+    prop = b["property"]
+    if b.get("fixed") is not None:
+        fx = workload(prop).fixed_scenarios(prop)
+        out = []
+        for i in b["fixed"]:
+            sc = fx[i]
+            sc.setdefault("seed", b["seed"])
+            sc.setdefault("run", -1 - i)
+            out.append(sc)
+        return out
+    return [generate(prop, b["seed"], r, b.get("tier", "quick")) for r in range(b["first"], b["last"] + 1)]
+
+
+def block_replay(prop, seed, tier, run, vj, block):
+    """A violation that does not replay from its scenario alone needs history from
+    earlier runs of the same process.  Find a short suffix of its block, executed in
+    order in a fresh process, that reproduces it."""
+    sig = (vj["property"], vj["clause"])
+    outdir = os.path.join(VERIF, "out", "replays")
+    os.makedirs(outdir, exist_ok=True)
+    path = os.path.join(outdir, "%s-s%s-r%s-%s-history.json" % (
+        prop, seed, run, hashlib.sha1(vj["clause"].encode()).hexdigest()[:6]))
+
+    def attempt(b):
+        with open(path, "w") as f:
+            json.dump({"block": b, "expect": {"property": sig[0], "clause": sig[1]},
+                       "detail": vj["detail"], "original_run": run,
+                       "note": "the violation needs in-process history: the runs of this block "
+                               "are executed in order, the last one must violate"},
+                      f, indent=1, sort_keys=True, default=repr)
+        p = subprocess.run([sys.executable, os.path.join(VERIF, "simv_main.py"), "replay", path],
+                           capture_output=True, text=True, timeout=1200,
+                           env=dict(os.environ, PYTHONHASHSEED="0"))
+        return p.returncode == 1 and "VIOLATION property=%s" % prop in p.stdout
+
+    if block.get("fixed") is not None:
+        idx = block["fixed"]
+        pos = idx.index(-1 - run)
+        cands = [{"property": prop, "seed": seed, "tier": tier, "fixed": idx[max(0, pos - n):pos + 1]}
+                 for n in (1, 2, 4, 8, 16, 64)]
+    else:
+        cands = []
+        n = 1
+        while True:
+            first = max(block["first"], run - n)
+            cands.append({"property": prop, "seed": seed, "tier": tier, "first": first, "last": run})
+            if first == block["first"]:
+                break
+            n *= 2
+    for b in cands:
+        if attempt(b):
+            return path, True
+    return path, False
+
+
 def cmd_replay(path):
     with open(path) as f:
         rp = json.load(f)
-    sc = rp["scenario"]
     sig = (rp["expect"]["property"], rp["expect"]["clause"])
+    if "block" in rp:
+        scs = block_scenarios(rp["block"])
+        res = None
+        for sc in scs:
+            res = execute(sc)
+        hit = [v for v in unmatched(res) if v.sig() == sig] if res is not None else []
+        if hit:
+            print("VIOLATION property=%s replay=%s" % (sig[0], path))
+            print("  clause: %s (after %d runs of history in the same process)" % (sig[1], len(scs) - 1))
+            print("  detail: %s" % json.dumps(hit[0].detail, default=repr)[:2000])
+            return 1
+        print("replay did not reproduce %s/%s" % sig)
+        return 0
+    sc = rp["scenario"]
     res = execute(sc)
     hit = [v for v in unmatched(res) if v.sig() == sig]
     others = [v for v in unmatched(res) if v.sig() != sig]
@@ -401,17 +516,23 @@ def cmd_check(prop, tier, runs, workers, first):
     reported = 0
     if viols:
         by_sig = {}
-        for run, sc, vj in sorted(viols, key=lambda x: x[0]):
-            by_sig.setdefault((vj["property"], vj["clause"]), (run, sc, vj))
+        for run, sc, vj, block in sorted(viols, key=lambda x: x[0]):
+            by_sig.setdefault((vj["property"], vj["clause"]), (run, sc, vj, block))
         budget = 40.0 if tier == "quick" else 120.0
-        for sig, (run, sc, vj) in list(by_sig.items())[:3]:
+        for sig, (run, sc, vj, block) in list(by_sig.items())[:3]:
             try:
                 path, confirmed, detail = minimise_and_report(prop, run, sc, vj,
                                                               budget / min(3, len(by_sig)))
+                if not confirmed:
+                    # not reproducible from the scenario alone: it needs the history of the
+                    # earlier runs in its process -> replay a suffix of its block
+                    path, confirmed = block_replay(prop, seed, tier, run, vj, block)
+                    detail = vj["detail"]
             except subprocess.TimeoutExpired:
                 raise HarnessError("replay confirmation timed out")
             if not confirmed:
-                # a violation that does not replay in a fresh process is a harness defect
+                # a violation that replays neither alone nor with its block's history in a
+                # fresh process is a harness defect (nondeterminism)
                 raise HarnessError("violation %s/%s (run %s) did not reproduce from its replay "
                                    "file %s" % (sig[0], sig[1], run, path))
             print("VIOLATION property=%s replay=%s" % (prop, path))
